@@ -327,17 +327,29 @@ Print Assumptions c14_platform_is_source.
 (* into_process_state IS the source: one iteration of the thread -> CallStack closure (dump-writer thread skipped first and
    keeping its name, `crashing_thread_id.or(requesting_thread_id) == Some(id)`, requesting_thread = Some(i) exactly there,
    `exception_context.or(thread_context)` there and the thread context elsewhere, Ok / MissingContext), the process id / create
-   time expressions and the choice of the stack memory handed to walk_stack equal the trees translate/c14_reason.py obtains
+   time expressions, MinidumpThread::stack_memory and the choice of the stack memory handed to walk_stack equal the trees translate/c14_reason.py obtains
    by symbolic execution of minidump-processor/src/processor.rs on every run (Gen/C14Process.v). *)
 Theorem c14_process_state_is_source : forall d : dump,
   (forall i t req, one_thread d i t req = gen_one_thread d i t req) /\
   process_id d = gen_process_id d /\ process_create_time d = gen_process_create_time d /\
-  (forall mems t f, choose_stack mems t f = gen_choose_stack mems t f).
+  (forall mems t f, choose_stack mems t f = gen_choose_stack mems t f) /\
+  (forall mems t, thread_stack mems t = gen_thread_stack mems t) /\
+  (* /proc/self/status: separator, key, first match, the value for `no Pid line` and for `does not parse` *)
+  (forall lines, pid_of_lines lines =
+                 pid_of_lines_with GEN_STATUS_SEP GEN_STATUS_KEY GEN_STATUS_ABSENT GEN_STATUS_UNPARSEABLE lines).
 Proof.
   intro d. split; [intros; apply one_thread_is_source|]. split; [apply pid_time_is_source|].
-  split; [apply pid_time_is_source|intros; apply choose_stack_is_source].
+  split; [apply pid_time_is_source|]. split; [intros; apply choose_stack_is_source|]. split; [intros; apply thread_stack_is_source|exact status_consts_are_source].
 Qed.
 Print Assumptions c14_process_state_is_source.
+
+(* Display for CrashReason: for the 21 variants rendered as "<literal><Debug name of the payload>" the predicted string starts
+   with the literal the translator reads from the `Variant(ex) => write!(f, "..{ex:?}")` arm of the source (the Debug names are the
+   tables of Gen/C14Names.v). *)
+Theorem c14_display_prefix_is_source : forall f p v s,
+  In (f, p) GEN_DISPLAY -> f <> WindowsGeneral -> reason_string (f, [v]) = Some s -> exists n, s = p ++ n.
+Proof. exact display_prefix_is_source. Qed.
+Print Assumptions c14_display_prefix_is_source.
 
 Example c14_nonvacuous_round5 :
   crash_reason gen_lk OsWindows X86_64
